@@ -10,6 +10,14 @@ pub fn run(scn: &Obj) -> Value {
     if scn["op"] == "uu" {
         return run_uu(scn);
     }
+    // two widths far beyond the compiled list, for the Uint -> float direction only: exponents above 2^16 (an exponent
+    // squeezed through a 16-bit type wraps only there)
+    if scn["op"] == "to_f" && bits == 65700 {
+        return run_w::<65700, 1027>(scn);
+    }
+    if scn["op"] == "to_f" && bits == 70000 {
+        return run_w::<70000, 1094>(scn);
+    }
     w!(bits, run_w, scn)
 }
 
